@@ -1,6 +1,7 @@
 package main
 
 import (
+	"regexp"
 	"bytes"
 	"fmt"
 	"go/ast"
@@ -168,32 +169,52 @@ func rtmpFactsTxn(p *pkgInfo, w *bytes.Buffer) error {
 		return fmt.Errorf("func (*Protocol) parseAMFObject")
 	}
 	oneLock := false
+	lookupHelpers := map[string]bool{}
+	// the bodies to look at: the function literals inside parseAMFObject and the methods of the same receiver it calls
+	// (the lookup may be a closure or a helper method)
+	type lbody struct {
+		name string
+		body *ast.BlockStmt
+	}
+	var bodies []lbody
 	ast.Inspect(pa.Body, func(n ast.Node) bool {
-		fl, ok := n.(*ast.FuncLit)
-		if !ok {
-			return true
+		switch x := n.(type) {
+		case *ast.FuncLit:
+			bodies = append(bodies, lbody{"", x.Body})
+		case *ast.CallExpr:
+			if se, ok := x.Fun.(*ast.SelectorExpr); ok {
+				if fd := p.funcDecl("Protocol", se.Sel.Name); fd != nil && fd.Body != nil && fd.Name.Name != "parseAMFObject" {
+					bodies = append(bodies, lbody{fd.Name.Name, fd.Body})
+				}
+			}
 		}
-		l := firstPos(fl.Body, func(n ast.Node) bool { return isCallTo(n, "ltransactions.Lock") })
-		look := firstPos(fl.Body, func(n ast.Node) bool {
+		return true
+	})
+	for _, lb := range bodies {
+		fl := lb
+		l := firstPos(fl.body, func(n ast.Node) bool { return isCallTo(n, "ltransactions.Lock") })
+		look := firstPos(fl.body, func(n ast.Node) bool {
 			ix, ok := n.(*ast.IndexExpr)
 			return ok && strings.HasSuffix(selString(ix.X), "input.transactions")
 		})
-		del := firstPos(fl.Body, func(n ast.Node) bool {
+		del := firstPos(fl.body, func(n ast.Node) bool {
 			c, ok := n.(*ast.CallExpr)
 			if !ok || selString(c.Fun) != "delete" || len(c.Args) != 2 {
 				return false
 			}
 			return strings.HasSuffix(selString(c.Args[0]), "input.transactions")
 		})
-		unlockDeferred := firstPos(fl.Body, func(n ast.Node) bool {
+		unlockDeferred := firstPos(fl.body, func(n ast.Node) bool {
 			d, ok := n.(*ast.DeferStmt)
 			return ok && isCallTo(d.Call, "ltransactions.Unlock")
 		})
 		if l != token.NoPos && look != token.NoPos && del != token.NoPos && unlockDeferred != token.NoPos && l < look && look < del {
 			oneLock = true
+			if fl.name != "" {
+				lookupHelpers[fl.name] = true
+			}
 		}
-		return true
-	})
+	}
 	fmt.Fprintf(w, "/-- `parseAMFObject` looks the transaction up and deletes it inside one function literal that locks first and unlocks by defer. -/\ndef txnLookupDeleteUnderOneLock : Bool := %v\n", oneLock)
 
 	// 5. no other function touches input.transactions
@@ -207,6 +228,9 @@ func rtmpFactsTxn(p *pkgInfo, w *bytes.Buffer) error {
 			switch fd.Name.Name {
 			case "onPacketWriten", "parseAMFObject", "NewProtocol":
 				continue
+			}
+			if lookupHelpers[fd.Name.Name] {
+				continue // the lookup-and-delete itself, written as a method that parseAMFObject calls
 			}
 			if firstPos(fd.Body, func(n ast.Node) bool {
 				se, ok := n.(*ast.SelectorExpr)
@@ -582,6 +606,7 @@ func rtmpPacketFacts(p *pkgInfo, w *bytes.Buffer) error {
 	}
 	reg := map[string]bool{}
 	foundTS := false
+	tidLocal, nameLocal := "tid", "name"
 	ast.Inspect(opw.Body, func(n ast.Node) bool {
 		ts, ok := n.(*ast.TypeSwitchStmt)
 		if !ok {
@@ -592,9 +617,11 @@ func rtmpPacketFacts(p *pkgInfo, w *bytes.Buffer) error {
 			c := cc.(*ast.CaseClause)
 			assigns := false
 			for _, st := range c.Body {
-				if as, ok := st.(*ast.AssignStmt); ok && len(as.Lhs) == 2 && selString(as.Lhs[0]) == "tid" && selString(as.Lhs[1]) == "name" &&
+				// two locals (whatever they are called) take the packet's transaction id and command name
+				if as, ok := st.(*ast.AssignStmt); ok && len(as.Lhs) == 2 &&
 					len(as.Rhs) == 2 && strings.HasSuffix(selString(as.Rhs[0]), ".TransactionID") && strings.HasSuffix(selString(as.Rhs[1]), ".CommandName") {
 					assigns = true
+					tidLocal, nameLocal = selString(as.Lhs[0]), selString(as.Lhs[1])
 				}
 			}
 			for _, e := range c.List {
@@ -615,16 +642,32 @@ func rtmpPacketFacts(p *pkgInfo, w *bytes.Buffer) error {
 	if len(reg) != 0 {
 		return fmt.Errorf("onPacketWriten: type switch case on a type without BetterCid/Type")
 	}
+	// the registering condition: the first `&&` / comparison expression over those two locals (in an `if` or assigned
+	// to a flag that guards an early return), printed with the locals called tid and name
 	cond := ""
-	ast.Inspect(opw.Body, func(n ast.Node) bool {
-		if is, ok := n.(*ast.IfStmt); ok && cond == "" {
-			var b bytes.Buffer
-			printer.Fprint(&b, p.fset, is.Cond)
-			if strings.Contains(b.String(), "tid") {
-				cond = b.String()
+	mentions := func(e ast.Expr, name string) bool {
+		found := false
+		ast.Inspect(e, func(x ast.Node) bool {
+			if id, ok := x.(*ast.Ident); ok && id.Name == name {
+				found = true
 			}
+			return true
+		})
+		return found
+	}
+	ast.Inspect(opw.Body, func(n ast.Node) bool {
+		be, ok := n.(*ast.BinaryExpr)
+		if !ok || cond != "" || !mentions(be, tidLocal) {
+			return true
 		}
-		return true
+		var b bytes.Buffer
+		printer.Fprint(&b, p.fset, be)
+		txt := b.String()
+		re := func(s, from, to string) string {
+			return regexp.MustCompile(`\b`+regexp.QuoteMeta(from)+`\b`).ReplaceAllString(s, to)
+		}
+		cond = re(re(txt, tidLocal, "tid"), nameLocal, "name")
+		return false
 	})
 	fmt.Fprintf(w, "/-- The condition under which `onPacketWriten` stores `transactions[tid] = name`. -/\ndef onPacketWritenCondition : String := %s\n", leanStr(cond))
 	return nil
